@@ -88,23 +88,38 @@ def check_case(case, ctx):
         return
     run, recs = rr
     req = case["req"]
-    office = case["office"]
     level = case["level"]
-    e = req["estimands"][0]
-    alpha = req["alphas"][-1]
+    problems = []
+    branches = reference_check(case, run, recs, level, req["estimands"][0], req["alphas"][-1], lambda kind, detail: problems.append((kind, detail)))
+    for kind, detail in problems[:1]:
+        ctx.violation(kind, detail, case, sig=kind)
+    if branches is None or problems:
+        return
+    for b, n in branches.items():
+        ctx.label(f"branch:{b}", n)
+    ctx.label("level:" + level)
+    if len(branches) >= 2:
+        ctx.nontrivial([level, case["office"], sorted(branches.items()), len(case["states"]), req["alphas"][-1]], common.summarize_case(case, recs) | {"level": level, "branches": branches})
+
+
+def reference_check(case, run, recs, level, e, alpha, viol):
+    """Recomputes, from the statement, the gaussian interval of every group of `level` for the (estimand, alpha)
+    whose per-group models the model object still holds (the last ones computed) and reports disagreements through
+    viol(kind, detail).  Returns the branch histogram, or None when nothing could be checked."""
+    req = case["req"]
+    office = case["office"]
     keys = level_keys(office, level)
     if len(keys) > 2:
-        return
+        return None
     model = run.client.model
     rh = run.client.results_handler
-    viol = lambda kind, detail: ctx.violation(kind, detail, case, sig=kind)  # noqa: E731
     non = rh.nonreporting_units
     if len(non) == 0:
-        return
+        return None
     cal = model.conformalization_data_agg
     mb = model.modeled_bounds_agg
     if cal is None or mb is None:
-        return
+        return None
     lb_units = np.asarray(model.alpha_to_nonreporting_lower_bounds[alpha], float)
     ub_units = np.asarray(model.alpha_to_nonreporting_upper_bounds[alpha], float)
     wcol = f"last_election_results_{e}"
@@ -155,6 +170,8 @@ def check_case(case, ctx):
             if dec and not common.close(float(r[f"mu_{side}_bound"]), mu, rel=1e-12, abs_=1e-15):
                 viol("wrong_source_mu", f"{level} {k} ({branch}, {len(src)} rows): mu_{side} {r[f'mu_{side}_bound']} reference {mu}")
                 return
+            if req["mp"].get("winsorize"):
+                continue  # the winsorised scale is not re-derived here; (3) below still uses the row's own sigma
             ck = (side, tuple(src))
             if ck not in sigma_cache:
                 sigma_cache[ck] = beta * float(
@@ -200,11 +217,7 @@ def check_case(case, ctx):
                 if float(r[f"{side}_{alpha}_{e}"]) != float(r[f"results_{e}"]):
                     viol("reported_group_interval", f"{level} {k}: {side} {r[f'{side}_{alpha}_{e}']} results {r[f'results_{e}']}")
                     return
-    for b, n in branches.items():
-        ctx.label(f"branch:{b}", n)
-    ctx.label("level:" + level)
-    if len(branches) >= 2:
-        ctx.nontrivial([level, office, sorted(branches.items()), len(case["states"]), alpha], common.summarize_case(case, recs) | {"level": level, "branches": branches, "n_cal": n_cal})
+    return branches
 
 
 def run_part(name, seed, n, tier, ctx, si, sc):
